@@ -67,6 +67,12 @@ def rule_field_own(ctx, prog, adt, field, writers, rule="R11", constructors=None
     for (b, bb, si, kind) in uses:
         n += 1
         ok = any(b.key.endswith(w) or (b.is_closure and b.root and b.root.endswith(w)) for w in writers)
+        if not ok and kind == "borrow-mut" and not b.is_closure and b.key not in prog.exported:
+            # a private accessor (`fn count_mut(&mut self, idx) -> &mut usize`): the borrow it hands out is used only where it is
+            # called – acceptable when every caller is an audited owner (R16 reads the accessor in place)
+            callers = prog.callers().get(b.key, [])
+            ok = bool(callers) and all(any(cb_.key.endswith(w) or (cb_.is_closure and cb_.root and cb_.root.endswith(w)) for w in writers)
+                                       for (cb_, _bb) in callers)
         ctx.ob(rule, "%s.%s/%s/%s" % (adt.split("::")[-1], field, kind, short(b.key)), ok, b.where(bb, si),
                "%s of the invariant-carrying field in its audited owner" % kind if ok else
                "`%s.%s` is %s in `%s`, outside its audited owners %s: the invariant established at construction can be broken"
@@ -649,7 +655,10 @@ def rule_r16(ctx, prog, rule="R16"):
     from .rules_terms import unwrap_try
     from .rules_unsafe import norm_arith
     b = prog.find("histogram::histograms::Histogram::<A>::add_observation")
-    from .facts import forward_result_local
+    from .facts import forward_result_local, inline_calls
+    # private accessors of Histogram (`count_mut(&mut self, idx) -> &mut usize`) are read in place
+    b = inline_calls(prog, b, lambda cb_: cb_.key not in prog.exported and not cb_.is_closure and "histograms::Histogram" in cb_.key
+                     and len(cb_.blocks) <= 20 and not cb_.raw.get("unsafe_fn"))
     b = forward_result_local(prog, b)          # `let mut outcome = Err(..); ..; outcome = Ok(()); outcome` is the return place by another name
     # the lookup: exactly one self.grid.index_of(observation)
     looks = [(bb, t) for bb, t in b.calls() if callee_name(t) == "index_of"]
